@@ -10,7 +10,7 @@
                   subscription and "no processed operand has failed" for pending conditions that have not been
                   detached by an enclosing condition.  [binv [] e s] is the invariant at step boundaries. *)
 From Coq Require Import ZArith QArith List Bool Lia.
-From ONL Require Import Kernel.Model Kernel.Cond.
+From ONL Require Import Kernel.Model Kernel.Keys Kernel.Cond.
 Import ListNotations.
 
 (* ------------------------------------------------------------------------------------------------ *)
@@ -862,3 +862,316 @@ Proof.
     + destruct (Keep2 _ _ No Hg) as (dev0 & H0 & O0 & C0). rewrite Ho in H0. injection H0 as <-.
       unfold is_failed. rewrite O0, Oo. reflexivity.
 Qed.
+
+Lemma cond_subscribe_cons c o t s : cond_subscribe c (o :: t) s = cond_subscribe c t (cond_subscribe c [o] s).
+Proof. reflexivity. Qed.
+
+Lemma CS_sub c all ops : forall l s done,
+  (forall o, In o l -> o <> c) -> (forall d, In d done -> d <> c) -> CS s c all ops done ->
+  CS (cond_subscribe c l s) c all ops (done ++ l).
+Proof.
+  induction l as [|o t IH]; intros s done Hl Hd H.
+  - rewrite app_nil_r. exact H.
+  - rewrite cond_subscribe_cons. replace (done ++ o :: t) with ((done ++ [o]) ++ t) by (rewrite <- app_assoc; reflexivity).
+    apply IH.
+    + intros o' Ho'. apply Hl. right. exact Ho'.
+    + intros d Hd'. apply in_app_or in Hd'. destruct Hd' as [Hd'|[<-|[]]]; [auto|apply Hl; left; reflexivity].
+    + apply CS_step; auto. apply Hl. left. reflexivity.
+Qed.
+
+(* the agenda after _check / the subscription loop: only entries for the condition are added, and only when it is triggered *)
+Definition agenda_ext (c : evid) (s s' : state) : Prop :=
+  exists ext, agenda s' = agenda s ++ ext /\
+    forall x, In x ext -> e_ev x = c /\ exists cev, get_event c s' = Some cev /\ out cev <> None.
+
+Lemma agenda_cond_check c o s : agenda_ext c s (cond_check c o s).
+Proof.
+  destruct (cond_check_cases c o s) as [->|(cev & oev & all & ops & n & Hc & Ho & Oc & Kc)].
+  { exists []. rewrite app_nil_r. split; [reflexivity|intros x []]. }
+  unfold cond_check. rewrite Hc, Ho, Oc, Kc.
+  assert (T : forall oo s1, get_event c s1 <> None -> agenda s1 = agenda s -> agenda_ext c s (trigger_event c oo s1)).
+  { intros oo s1 H1 A. unfold trigger_event. eexists. split; [cbn [agenda schedule upd_event set_events]; rewrite A; reflexivity|].
+    intros x [<-|[]]. split; [reflexivity|]. rewrite get_schedule. destruct (get_event c s1) as [e1|] eqn:E1; [|congruence].
+    exists (ev_set_out (Some oo) e1). split; [apply get_upd_same, E1|cbn; discriminate]. }
+  assert (G1 : get_event c (upd_event c (ev_set_kind (KCond all ops (S n))) s) <> None).
+  { rewrite (get_upd_same _ _ _ _ Hc). discriminate. }
+  destruct (out oev) as [[v|x]|].
+  - destruct (cond_evaluate all (length ops) (S n)); [apply T; [exact G1|reflexivity]|].
+    exists []. rewrite app_nil_r. split; [reflexivity|intros x []].
+  - apply T; [|reflexivity]. rewrite get_upd. destruct (Nat.eqb c o); [|exact G1]. rewrite (get_upd_same _ _ _ _ Hc). cbn. discriminate.
+  - destruct (cond_evaluate all (length ops) (S n)); [apply T; [exact G1|reflexivity]|].
+    exists []. rewrite app_nil_r. split; [reflexivity|intros x []].
+Qed.
+
+Lemma agenda_ext_trans c s1 s2 s3 :
+  agenda_ext c s1 s2 -> agenda_ext c s2 s3 -> grows s2 s3 -> agenda_ext c s1 s3.
+Proof.
+  intros (e1 & A1 & B1) (e2 & A2 & B2) [G _]. exists (e1 ++ e2). split; [rewrite A2, A1, app_assoc; reflexivity|].
+  intros x Hx. apply in_app_or in Hx. destruct Hx as [Hx|Hx]; [|apply B2, Hx].
+  destruct (B1 _ Hx) as (E & cev & Hc & Oc). split; [exact E|].
+  destruct (G _ _ Hc) as (cev' & Hc' & _ & _ & O' & _). exists cev'. auto.
+Qed.
+
+Lemma agenda_cond_subscribe c l : forall s, agenda_ext c s (cond_subscribe c l s).
+Proof.
+  induction l as [|o t IH]; intros s.
+  - exists []. rewrite app_nil_r. split; [reflexivity|intros x []].
+  - rewrite cond_subscribe_cons. eapply agenda_ext_trans; [|apply IH|apply grows_cond_subscribe].
+    cbn [cond_subscribe]. destruct (get_event o s) as [oev|].
+    + destruct (is_processed oev); [apply agenda_cond_check|]. exists []. rewrite app_nil_r. split; [reflexivity|intros x []].
+    + exists []. rewrite app_nil_r. split; [reflexivity|intros x []].
+Qed.
+
+Lemma sub_is_proc c l s e : (forall o, In o l -> o <> c) -> e <> c -> is_proc (cond_subscribe c l s) e = is_proc s e.
+Proof.
+  intros Hl Ne. unfold is_proc. destruct (get_event e s) as [ev|] eqn:He.
+  - destruct (sub_frame c l s Hl e ev Ne He) as (ev' & He' & _ & _ & _ & _ & C).
+    rewrite He'. unfold is_processed. rewrite C. destruct (cbs ev); reflexivity.
+  - assert (L : (length (events s) <= e)%nat) by (apply nth_error_None; exact He).
+    rewrite get_ge; [reflexivity|]. rewrite length_cond_subscribe. exact L.
+Qed.
+
+Lemma all_valid_lt es s : all_valid es s = true -> forall o, In o es -> (o < length (events s))%nat.
+Proof.
+  unfold all_valid. rewrite forallb_forall. intros H o Ho. specialize (H o Ho).
+  destruct (get_event o s) eqn:E; [eapply get_lt, E|discriminate].
+Qed.
+
+(* what Condition.__init__ leaves behind *)
+Record cond_made (s s' : state) (all : bool) (es : list evid) : Prop := mkMade {
+  cm_len : length (events s') = S (length (events s));
+  cm_procs : procs s' = procs s;
+  cm_old : forall e ev, get_event e s = Some ev -> exists ev', get_event e s' = Some ev' /\ kind ev' = kind ev /\
+      out ev' = out ev /\ (defused ev = true -> defused ev' = true) /\
+      (defused ev' = true -> defused ev = true \/ (In e es /\ cbs ev = None /\ is_failed ev = true)) /\
+      cbs ev' = match cbs ev with None => None
+                | Some l0 => Some (l0 ++ repeat (CbCheck (length (events s))) (occ e es)) end;
+  cm_new : exists cev n, get_event (length (events s)) s' = Some cev /\ kind cev = KCond all es n /\
+      cbs cev = Some (match es with [] => [] | _ => [CbBuild (length (events s))] end) /\
+      (n <= procpos s es)%nat /\
+      match out cev with
+      | None => es <> [] /\ n = procpos s es /\ cond_evaluate all (length es) n = false /\
+                (forall o oev, In o es -> get_event o s = Some oev -> cbs oev = None -> is_failed oev = false)
+      | Some (Ok v) => cond_evaluate all (length es) n = true
+      | Some (Fail x) => exists o oev, In o es /\ get_event o s' = Some oev /\ cbs oev = None /\ defused oev = true /\
+                                       out oev = Some (Fail x)
+      end;
+  cm_agenda : agenda_ext (length (events s)) s s' }.
+
+Lemma cond_evaluate_nil all : cond_evaluate all 0 0 = true.
+Proof. destruct all; reflexivity. Qed.
+Lemma cond_evaluate_zero all n : n <> 0%nat -> cond_evaluate all n 0 = false.
+Proof. intros H. destruct all; cbn; destruct n; try congruence; reflexivity. Qed.
+
+Lemma call_cond_spec all es s : all_valid es s = true -> cond_made s (fst (call_cond all es s)) all es.
+Proof.
+  intros V. pose proof (all_valid_lt _ _ V) as Lt.
+  unfold call_cond. rewrite V. cbn [negb].
+  set (c := length (events s)).
+  set (EV := mkEvent (Some []) None false (KCond all es 0)).
+  rewrite (new_event_eq EV s). cbv beta iota. fold c.
+  set (s1 := snd (new_event EV s)).
+  assert (G1 : forall e ev, get_event e s = Some ev -> get_event e s1 = Some ev).
+  { intros e ev H. unfold s1. rewrite get_new_old; [exact H|eapply get_lt, H]. }
+  assert (Gc : get_event c s1 = Some EV) by apply get_new_new.
+  destruct es as [|e0 t].
+  - (* no operands: succeed at once *)
+    cbn [fst]. unfold trigger_event. constructor.
+    + cbn [events schedule]. rewrite upd_event_length. apply new_event_length.
+    + reflexivity.
+    + intros e ev H. exists ev. rewrite get_schedule, get_upd_other by (apply get_lt in H; fold c in H; lia).
+      split; [apply G1, H|]. repeat split; auto. destruct (cbs ev); [rewrite app_nil_r|]; reflexivity.
+    + exists (ev_set_out (Some (Ok (VCond []))) EV), 0%nat. rewrite get_schedule.
+      split; [apply get_upd_same, Gc|]. cbn. repeat split; auto. apply cond_evaluate_nil.
+    + eexists. split; [cbn [agenda schedule upd_event set_events]; reflexivity|].
+      intros x [<-|[]]. split; [reflexivity|]. rewrite get_schedule. eexists. split; [apply get_upd_same, Gc|cbn; discriminate].
+  - (* subscription loop, then the _build_value callback *)
+    cbn [fst]. set (es := e0 :: t) in *. assert (Ees : es = e0 :: t) by reflexivity.
+    assert (Nn : es <> []) by (rewrite Ees; discriminate).
+    assert (Hne : forall o, In o es -> o <> c) by (intros o Ho; apply Lt in Ho; fold c in Ho; lia).
+    set (s2 := cond_subscribe c es s1).
+    assert (CS0 : CS s1 c all es []).
+    { exists EV, 0%nat. split; [exact Gc|]. split; [reflexivity|]. split; [reflexivity|]. split; [cbn; lia|].
+      cbn [out EV]. split; [reflexivity|]. split; [|intros o oev []].
+      apply cond_evaluate_zero. rewrite Ees. cbn. discriminate. }
+    pose proof (CS_sub c all es es s1 [] Hne (fun d (H : In d []) => match H with end) CS0) as CS2.
+    cbn [app] in CS2. fold s2 in CS2.
+    assert (PP : forall s', (forall o, In o es -> is_proc s' o = is_proc s o) -> procpos s' es = procpos s es).
+    { intros s' H. apply procpos_ext, H. }
+    assert (IP : forall o, In o es -> is_proc s2 o = is_proc s o).
+    { intros o Ho. unfold s2. rewrite sub_is_proc by auto. unfold is_proc, s1. rewrite get_new_old by (apply Lt, Ho). reflexivity. }
+    constructor.
+    + unfold add_callback. rewrite upd_event_length. unfold s2. rewrite length_cond_subscribe. apply new_event_length.
+    + unfold add_callback. cbn [procs upd_event set_events]. unfold s2. rewrite procs_cond_subscribe. reflexivity.
+    + intros e ev H. assert (Ne : e <> c) by (apply get_lt in H; fold c in H; lia).
+      destruct (sub_frame c es s1 Hne e ev Ne (G1 _ _ H)) as (ev' & He' & A).
+      exists ev'. unfold add_callback. rewrite get_upd_other by exact Ne. split; [exact He'|exact A].
+    + destruct CS2 as (cev & n & Hc & Cc & Kc & Le & M).
+      exists (ev_add_cb (CbBuild c) cev), n. unfold add_callback. split; [apply get_upd_same, Hc|].
+      unfold ev_add_cb. rewrite Cc. cbn [kind cbs out ev_set_cbs app]. split; [exact Kc|].
+      split; [rewrite Ees; reflexivity|]. rewrite (PP s2 IP) in *. split; [exact Le|].
+      destruct (out cev) as [[v|x]|].
+      * apply M.
+      * destruct M as (o & oev & Io & Ho & Co & Do & Oo). exists o, oev. rewrite get_upd_other by (apply Hne, Io). auto.
+      * destruct M as (Mn & Me & Mf). split; [exact Nn|]. split; [exact Mn|]. split; [exact Me|].
+        intros o oev Io Ho Co. destruct (sub_frame c es s1 Hne o oev (Hne _ Io) (G1 _ _ Ho)) as (oev' & Ho' & _ & O' & _ & _ & C').
+        fold s2 in Ho'. rewrite Co in C'. specialize (Mf o oev' Io Ho' C'). unfold is_failed in *. rewrite <- O'. exact Mf.
+    + destruct (agenda_cond_subscribe c es s1) as (ext & A & B). fold s2 in A, B.
+      exists ext. split; [exact A|]. intros x Hx. destruct (B _ Hx) as (E & cev & Hc & Oc). split; [exact E|].
+      exists (ev_add_cb (CbBuild c) cev). unfold add_callback. split; [apply get_upd_same, Hc|].
+      unfold ev_add_cb. destruct (cbs cev); exact Oc.
+Qed.
+
+Lemma cbcount_repeat_same d k : cbcount d (repeat d k) = k.
+Proof. induction k; [reflexivity|]. cbn [repeat]. rewrite cbcount_cons, cb_eqb_refl, IHk. reflexivity. Qed.
+Lemma cbcount_repeat_other d d' k : d <> d' -> cbcount d (repeat d' k) = 0%nat.
+Proof. intros N. apply cbcount_notin. intros H. apply repeat_spec in H. congruence. Qed.
+
+Lemma made_old_inv s s' all es e ev' :
+  cond_made s s' all es -> get_event e s' = Some ev' -> e <> length (events s) ->
+  exists ev, get_event e s = Some ev /\ kind ev' = kind ev /\ out ev' = out ev /\
+    (defused ev = true -> defused ev' = true) /\
+    cbs ev' = match cbs ev with None => None
+              | Some l0 => Some (l0 ++ repeat (CbCheck (length (events s))) (occ e es)) end.
+Proof.
+  intros M H N. pose proof (get_lt _ _ _ H) as L. rewrite (cm_len _ _ _ _ M) in L.
+  assert (L' : (e < length (events s))%nat) by lia.
+  destruct (get_event e s) as [ev|] eqn:E; [|apply nth_error_None in E; lia].
+  destruct (cm_old _ _ _ _ M _ _ E) as (ev2 & H2 & A & B & C & _ & D). rewrite H in H2. injection H2 as <-.
+  exists ev. auto.
+Qed.
+
+Lemma cinv_call_cond X all es s : cinv X s -> all_valid es s = true -> cinv X (fst (call_cond all es s)).
+Proof.
+  intros CI V. pose proof (call_cond_spec all es s V) as M. pose proof (all_valid_lt _ _ V) as Lt.
+  set (s' := fst (call_cond all es s)) in *. set (c := length (events s)) in *.
+  destruct (cm_new _ _ _ _ M) as (cev & n & Hc & Kc & Cc & Le & Mo). fold c in Hc, Cc.
+  assert (Cl : forall e ev', get_event e s' = Some ev' ->
+            (e = c /\ ev' = cev) \/ (e <> c /\ exists ev, get_event e s = Some ev /\ kind ev' = kind ev /\ out ev' = out ev /\
+               (defused ev = true -> defused ev' = true) /\
+               cbs ev' = match cbs ev with None => None | Some l0 => Some (l0 ++ repeat (CbCheck c) (occ e es)) end)).
+  { intros e ev' H. destruct (Nat.eq_dec e c) as [->|N]; [left; split; [reflexivity|congruence]|].
+    right. split; [exact N|]. eapply made_old_inv; eassumption. }
+  assert (Fresh : forall o oev l, get_event o s = Some oev -> cbs oev = Some l -> cbcount (CbCheck c) l = 0%nat).
+  { intros o oev l Ho Co. apply cbcount_notin. intros Hin.
+    destruct (ci_check _ _ CI _ _ _ _ Ho Co Hin) as (x & _ & _ & _ & Hx & _). apply get_lt in Hx. unfold c in Hx. lia. }
+  constructor.
+  - intros x Hx. destruct (cm_agenda _ _ _ _ M) as (ext & A & B). rewrite A in Hx. apply in_app_or in Hx.
+    destruct Hx as [Hx|Hx].
+    + destruct (ci_agenda _ _ CI _ Hx) as (ev & He & Oe). destruct (cm_old _ _ _ _ M _ _ He) as (ev' & He' & _ & O' & _).
+      exists ev'. split; [exact He'|congruence].
+    + destruct (B _ Hx) as (-> & cev' & Hc' & Oc'). exists cev'. auto.
+  - intros d dev all' ops n' Hd Kd o Io. destruct (Cl _ _ Hd) as [[-> ->]|(N & ev & He & K & _)].
+    + rewrite Kc in Kd. injection Kd as <- <- <-. apply Lt, Io.
+    + rewrite K in Kd. eapply ci_older; eassumption.
+  - intros e ev' He Ce. destruct (Cl _ _ He) as [[-> ->]|(N & ev & He0 & _ & O & _ & C)].
+    + rewrite Cc in Ce. discriminate.
+    + rewrite O. eapply ci_proc_trig; [exact CI|exact He0|]. rewrite C in Ce. destruct (cbs ev); [discriminate|reflexivity].
+  - intros o oev l d Ho Co Hin. destruct (Cl _ _ Ho) as [[-> ->]|(N & ev & He0 & _ & _ & _ & C)].
+    + rewrite Cc in Co. injection Co as <-. destruct es; [destruct Hin|destruct Hin as [H|[]]; discriminate].
+    + rewrite C in Co. destruct (cbs ev) as [l0|] eqn:C0; [|discriminate]. injection Co as <-.
+      destruct (Nat.eq_dec d c) as [->|Nd].
+      * exists cev, all, es, n. split; [exact Hc|]. split; [exact Kc|].
+        rewrite cbcount_app, (Fresh _ _ _ He0 C0), cbcount_repeat_same. lia.
+      * apply in_app_or in Hin. destruct Hin as [Hin|Hin]; [|apply repeat_spec in Hin; congruence].
+        destruct (ci_check _ _ CI _ _ _ _ He0 C0 Hin) as (dev & a & ops & m & Hd & Kd & Ld).
+        destruct (cm_old _ _ _ _ M _ _ Hd) as (dev' & Hd' & Kd' & _). exists dev', a, ops, m.
+        split; [exact Hd'|]. split; [congruence|]. rewrite cbcount_app, cbcount_repeat_other by congruence. lia.
+  - intros e ev' l d He Ce Hin. destruct (Cl _ _ He) as [[-> ->]|(N & ev & He0 & _ & _ & _ & C)].
+    + rewrite Cc in Ce. injection Ce as <-. destruct es; [destruct Hin|].
+      destruct Hin as [H|[]]. injection H as <-. split; [reflexivity|]. split; [reflexivity|].
+      rewrite cbcount_cons, cb_eqb_refl. reflexivity.
+    + rewrite C in Ce. destruct (cbs ev) as [l0|] eqn:C0; [|discriminate]. injection Ce as <-.
+      apply in_app_or in Hin. destruct Hin as [Hin|Hin]; [|apply repeat_spec in Hin; discriminate].
+      destruct (ci_build _ _ CI _ _ _ _ He0 C0 Hin) as (-> & Hd & Cn). split; [reflexivity|]. split.
+      * destruct l0; cbn in *; [discriminate|exact Hd].
+      * rewrite cbcount_app, cbcount_repeat_other by discriminate. lia.
+  - intros d dev a ops m l Hd Kd Cd Ne. destruct (Cl _ _ Hd) as [[-> ->]|(N & ev & He0 & K & _ & _ & C)].
+    + rewrite Kc in Kd. injection Kd as <- <- <-. rewrite Cc in Cd. injection Cd as <-.
+      destruct es; [congruence|left; reflexivity].
+    + rewrite C in Cd. destruct (cbs ev) as [l0|] eqn:C0; [|discriminate]. injection Cd as <-.
+      apply in_or_app. left. rewrite K in Kd. eapply ci_build_head; eassumption.
+  - intros d dev a ops m Hd Kd Od. destruct (Cl _ _ Hd) as [[-> ->]|(N & ev & He0 & K & O & _)].
+    + rewrite Kc in Kd. injection Kd as <- <- <-. rewrite Od in Mo. apply Mo.
+    + rewrite K in Kd. rewrite O in Od. eapply ci_pending; eassumption.
+  - intros d dev a ops m Hd Kd NX. destruct (Cl _ _ Hd) as [[-> ->]|(N & ev & He0 & K & O & _)].
+    + rewrite Kc in Kd. injection Kd as <- <- <-. unfold justified. destruct (out cev) as [[v|x]|]; auto.
+      destruct Mo as (o & oev & Io & Ho & Co & Do & _). exists o, oev. auto.
+    + rewrite K in Kd. pose proof (ci_just _ _ CI _ _ _ _ _ He0 Kd NX) as J. unfold justified in *. rewrite O.
+      destruct (out ev) as [[v|x]|]; auto. destruct J as (o & oev & Io & Ho & Co & Do).
+      destruct (cm_old _ _ _ _ M _ _ Ho) as (oev' & Ho' & _ & _ & D' & _ & C'). exists o, oev'.
+      split; [exact Io|]. split; [exact Ho'|]. split; [rewrite C', Co; reflexivity|auto].
+Qed.
+
+(* ------------------------------------------------------------------------------------------------ *)
+(* every primitive preserves the state invariant *)
+
+Lemma get_init e t0 : get_event e (init_state t0) = None.
+Proof. unfold get_event. cbn. destruct e; reflexivity. Qed.
+
+Lemma cinv_init X t0 : cinv X (init_state t0).
+Proof.
+  constructor.
+  - intros x [].
+  - intros c cev all ops n H. rewrite get_init in H. discriminate.
+  - intros e ev H. rewrite get_init in H. discriminate.
+  - intros o oev l c H. rewrite get_init in H. discriminate.
+  - intros e ev l c H. rewrite get_init in H. discriminate.
+  - intros c cev all ops n l H. rewrite get_init in H. discriminate.
+  - intros c cev all ops n H. rewrite get_init in H. discriminate.
+  - intros c cev all ops n H. rewrite get_init in H. discriminate.
+Qed.
+
+Lemma iprim_cinv X x s s' : cinv X s -> iprim x s s' -> cinv (X ++ lab x) s'.
+Proof.
+  intros CI P. destruct P; cbn [lab]; rewrite ?app_nil_r.
+  - destruct H as (E & _ & A). eapply cinv_same_events; [exact CI|exact E|]. intros y Hy. left. rewrite <- A. exact Hy.
+  - apply cinv_new_plain; [exact CI|exact H|]. destruct H as ((l & C & _) & _). congruence.
+  - eapply cinv_schedule; eassumption.
+  - unfold add_callback. destruct (get_event e s) as [ev|] eqn:He; [|rewrite upd_event_none by exact He; exact CI].
+    eapply cinv_upd; [exact CI|apply incl_refl|exact He|]. apply ok_add_cb; [exact H|]. intros C. eapply ci_proc_trig; eassumption.
+  - eapply cinv_upd; [exact CI|apply incl_refl|exact H|]. apply ok_set_cbs; [exact H0|]. destruct c; auto.
+  - eapply cinv_upd; [exact CI|apply incl_appl, incl_refl|exact H|]. apply ok_set_out. intros _. right.
+    split; [exact H0|]. apply in_or_app. right. left. reflexivity.
+  - eapply cinv_upd; [exact CI|apply incl_refl|exact H|]. apply ok_set_out. unfold is_cond. rewrite H0. discriminate.
+  - destruct (get_event e s) as [ev|] eqn:He; [|rewrite upd_event_none by exact He; exact CI].
+    eapply cinv_upd; [exact CI|apply incl_refl|exact He|]. apply ok_set_defused. intros C. eapply ci_proc_trig; eassumption.
+  - eapply cinv_same_events; [exact CI|reflexivity|]. intros y Hy. left. exact Hy.
+  - apply cinv_call_cond; assumption.
+Qed.
+
+Lemma cinv_popped X m rest s : cinv X s -> pop_min (agenda s) = Some (m, rest) -> cinv X (popped m rest s).
+Proof.
+  intros CI Pm. destruct (pop_min_spec _ _ _ Pm) as (Im & Er & _).
+  destruct (ci_agenda _ _ CI _ Im) as (ev & He & Oe).
+  assert (CI1 : cinv X (pop_state m rest s)).
+  { eapply cinv_same_events; [exact CI|reflexivity|]. intros y Hy. left. cbn in Hy. rewrite Er in Hy.
+    eapply remove_eid_subset, Hy. }
+  unfold popped. eapply cinv_upd; [exact CI1|apply incl_refl|exact He|]. apply ok_set_processed, Oe.
+Qed.
+
+Lemma prim_cinv X x s s' : cinv X s -> prim x s s' -> cinv (X ++ lab x) s'.
+Proof.
+  intros CI P. destruct P.
+  - eapply iprim_cinv; eassumption.
+  - cbn [lab]. rewrite app_nil_r. apply cinv_popped; assumption.
+  - cbn [lab]. rewrite app_nil_r. eapply cinv_cond_check; eassumption.
+  - cbn [lab]. rewrite app_nil_r. apply cinv_cond_build, CI.
+Qed.
+
+Lemma ptrace_cinv X0 X s s' : ptrace X s s' -> cinv X0 s -> cinv (X0 ++ X) s'.
+Proof.
+  intros T. revert X0. induction T as [|x X s s1 s2 P T IH]; intros X0 CI; [rewrite app_nil_r; exact CI|].
+  rewrite app_assoc. apply IH. eapply prim_cinv; eassumption.
+Qed.
+
+Theorem reach_cinv codes X s : reach codes X s -> cinv X s.
+Proof.
+  intros (t0 & H). change X with ([] ++ X). eapply ptrace_cinv; [eapply etrace_ptrace, H|apply cinv_init].
+Qed.
+
+Lemma xtrace_cinv codes X0 X s s' : xtrace codes X s s' -> cinv X0 s -> cinv (X0 ++ X) s'.
+Proof. intros T. apply ptrace_cinv. eapply xtrace_ptrace, T. Qed.
+
+Lemma steps_cinv s s' X : steps s s' -> cinv X s -> exists X', cinv (X ++ X') s'.
+Proof. intros [X' T] CI. exists X'. eapply ptrace_cinv; eassumption. Qed.
